@@ -19,7 +19,9 @@ RULE = (
     "tuple component, comparison operand, chained (value reused after coercion)}; the actual-typed expression is a "
     "parameter, a call result or an arithmetic expression (thorough adds more shapes and all operators). Each program "
     "goes through the REAL check(); accepted ones are lowered by the real compiler and the arithmetic/conversion ops are "
-    "read from the Hugr. PLUS non-widening neighbours (oracle only): bool (variable, literals, comparison, not), str, None, angle, tuple and the "
+    "read from the Hugr. PLUS every binary operator x every mixed (left, right) kind pair: accepted iff the wider kind's homogeneous form is, "
+    "lowering = homogeneous lowering + exactly the widening conversion of the narrower operand, and not returnable at the narrower kind. "
+    "PLUS non-widening neighbours (oracle only): bool (variable, literals, comparison, not), str, None, angle, tuple and the "
     "narrowing numeric pairs as actual types against nat/int/float/bool/angle in 10 positions (assignment, return, argument, tuple/array element, "
     "struct field, both operand sides, aug-assign, comptime argument): must all be rejected. non-trivial = off-diagonal pair; distinct by canonical case. The space of kind pairs is finite "
     "and covered exhaustively in both tiers."
@@ -320,6 +322,101 @@ def tie(ctx):
         ctx.violation("call-result-not-widened:comptime:int->float",
                       "widening use rejected: comptime(1) where float is expected is a type mismatch", {"source": src})
     _tie_neighbours(ctx)
+    _tie_operator_operands(ctx)
+
+
+# ------------------------------------------------------------------ operator operands as a coercion position (all operators)
+ALL_BINOPS = ["+", "-", "*", "/", "//", "%", "**", "<<", ">>", "&", "|", "^", "==", "!=", "<", "<=", ">", ">="]
+CMP_OPS = ("==", "!=", "<", "<=", ">", ">=")
+
+
+def _funcs_ops(src):
+    """('ok', {FuncDefn name: [arithmetic/tket.bool op names in order]}) | (class, None) for a probe program"""
+    import feed
+    import hugr.ops as ops
+    try:
+        m = feed.load(src)
+    except BaseException as ex:  # noqa: BLE001
+        return ("load-crash:" + type(ex).__name__, None)
+    try:
+        kind, exc = feed.check_outcome(m.f)
+        if kind != "ok":
+            return ("rejected:" + feed.err_class(exc) if kind == "user" else "crash:" + type(exc).__name__, None)
+        try:
+            g = feed.lower(m.f)
+        except BaseException as ex:  # noqa: BLE001
+            return ("lower-crash:" + type(ex).__name__, None)
+        h, out = g.hugr, {}
+        for n in h:
+            if isinstance(h[n].op, ops.FuncDefn):
+                out[h[n].op.f_name] = [x for x in (feed.op_name(h[c].op) for c in h.descendants(n))
+                                       if x.startswith("arithmetic.") and x not in ("arithmetic.conversions.itousize", "arithmetic.conversions.ifromusize")]
+        return ("ok", out)
+    finally:
+        feed.unload(m)
+
+
+def _tie_operator_operands(ctx):
+    """`a OP b` with a: L, b: R over {nat,int,float}^2 for EVERY binary operator.  The statement allows exactly one treatment of a
+    mixed pair: the narrower operand is widened (no-op / convert_u / convert_s) and the operator of the WIDER kind is applied.  So
+    (1) the mixed form is accepted iff the homogeneous form of the wider kind is; (2) its lowering is the homogeneous lowering plus
+    exactly the widening conversion of the narrower operand — an operand of another kind accepted *without* that conversion, or fed
+    to the narrower kind's op, is an implicit narrowing through an operator signature; (3) the result may not be returned at the
+    narrower kind."""
+    kinds = ("nat", "int", "float")
+    homo = {}
+    n = 0
+    for op in ALL_BINOPS:
+        for k in kinds:
+            rt = "bool" if op in CMP_OPS else ("float" if op == "/" else k)
+            homo[(op, k)] = _funcs_ops(f"@guppy\ndef f(a: {k}, b: {k}) -> {rt}:\n    return a {op} b\n")
+    for op in ALL_BINOPS:
+        for l in kinds:
+            for r in kinds:
+                if l == r:
+                    continue
+                k = l if RANK[l] >= RANK[r] else r
+                narrow = r if k == l else l
+                rt = "bool" if op in CMP_OPS else ("float" if op == "/" else k)
+                src = f"@guppy\ndef f(a: {l}, b: {r}) -> {rt}:\n    return a {op} b\n"
+                st, funcs = _funcs_ops(src)
+                # a comparison whose LEFT operand is the narrower one is answered by the reflected dunder of the wider kind
+                # (`a < b` becomes `b > a`): compare with the mirrored operator's homogeneous lowering
+                mirror = {"<": ">", "<=": ">=", ">": "<", ">=": "<="}
+                hop = mirror.get(op, op) if (op in CMP_OPS and narrow == l) else op
+                hst, hfuncs = homo[(hop, k)]
+                case = {"operator": op, "left": l, "right": r}
+                key = "input:" + json.dumps(case, sort_keys=True)
+                n += 1
+                ctx.count(case, nontrivial=True, kind=f"operand-all:{op}:{st.split(':')[0]}")
+                if (st == "ok") != (hst == "ok"):
+                    ctx.violation(key, f"`a {op} b` with a: {l}, b: {r} is {st} but the {k} operator on two {k}s is {hst}: the narrower operand is not "
+                                  f"simply widened", {"case": case, "source": src, "mixed": st, "homogeneous": hst})
+                    continue
+                if st != "ok":
+                    continue
+                want_conv = WIDENING[(narrow, k)]
+                f_ops = funcs.get("f", [])
+                convs = [x for x in f_ops if x in CONV]
+                rest = [x for x in f_ops if x not in CONV]
+                h_rest = [x for x in hfuncs.get("f", []) if x not in CONV]
+                others = {a: b for a, b in funcs.items() if a != "f"}
+                h_others = {a: b for a, b in hfuncs.items() if a != "f"}
+                if sorted(convs) != sorted(want_conv) or rest != h_rest or others != h_others:
+                    ctx.violation(key, f"`a {op} b` with a: {l}, b: {r}: lowered to {f_ops} {others or ''}; widening the {narrow} operand and applying the "
+                                  f"{k} operator gives {sorted(want_conv) + h_rest} {h_others or ''} — the {k if narrow != k else narrow} operand is used "
+                                  f"without the value-preserving conversion", {"case": case, "source": src, "mixed": funcs, "homogeneous": hfuncs})
+                    continue
+                if op not in CMP_OPS and op != "/":
+                    src2 = f"@guppy\ndef f(a: {l}, b: {r}) -> {narrow}:\n    return a {op} b\n"
+                    st2, _f2 = _funcs_ops(src2)
+                    n += 1
+                    ctx.count(dict(case, ret=narrow), nontrivial=True, kind=f"operand-all-narrow-ret:{st2.split(':')[0]}")
+                    if st2 == "ok":
+                        ctx.violation("input:" + json.dumps(dict(case, ret=narrow), sort_keys=True),
+                                      f"`a {op} b` with a: {l}, b: {r} is accepted as a {narrow}: the {k} operand was narrowed implicitly",
+                                      {"case": dict(case, ret=narrow), "source": src2})
+    ctx.extra["operator_operand_programs"] = n
 
 
 # ------------------------------------------------------------------ non-widening neighbours (oracle only)
